@@ -30,14 +30,22 @@
 (* PART 2 - validity predicates on an exported md-grid O (any family).       *)
 (* All floats of the real grid are exported as fixed-point integers in      *)
 (* units of 2^-26 (FX); 0-based indices as in porepy.                       *)
-(*   O.sds[i+1]  = [dim, nc, nf, vol, cc, fa, fc, fnrm,                      *)
-(*                  cf   : face -> << <<cell, sign>>, .. >>,                 *)
-(*                  fnod : face -> nodes, cnod : cell -> nodes, nodes,       *)
-(*                  tfrac: faces tagged fracture_faces]                      *)
+(* Vectors are stored FLAT (x1,y1,z1,x2,..): TLC's JSON reader costs per    *)
+(* element, so only what the clauses read is exported.                      *)
+(*   O.sds[i+1]  = [dim, nc, nf, vol, cc (flat), fc (flat, ALL faces),      *)
+(*                  tfrac : faces tagged fracture_faces,                     *)
+(*                  fsel  : the faces that occur in a mortar map of an       *)
+(*                          interface whose primary grid this is, and per    *)
+(*                          such face k: sfa[k] area, sfn (flat) normal,     *)
+(*                          sncf[k] number of cells of the face, scell[k],   *)
+(*                          ssign[k] its first cell and the cell_faces sign, *)
+(*                          spts[sptr[k]..sptr[k+1]) (flat) its node coords, *)
+(*                  cpts[cptr[c]..cptr[c+1]) (flat) the node coordinates of  *)
+(*                          cell c (lower-dimensional grids of dim >= 1)]    *)
 (*   O.intfs[..] = [pri, sec, nsides, nm,                                    *)
-(*                  pm : << <<mortar, primary face, weight>> >>  (rows of    *)
-(*                       primary_to_mortar_int, sorted by mortar cell),      *)
-(*                  sm : << <<mortar, secondary cell, weight>> >>,           *)
+(*                  pmr, pmf, pmw : rows (mortar cells, sorted), columns     *)
+(*                       (primary faces) and values of primary_to_mortar_int,*)
+(*                  smr, smc, smw : the same for secondary_to_mortar_int,    *)
 (*                  mside : mortar cell -> side (1..nsides), mvol]           *)
 (* The seven clauses of the property are the operators                      *)
 (*   CoupledBothSides, FacesCoincide, OppositeNormals, TagsExact,           *)
@@ -134,25 +142,40 @@ Norm1(u) == AbsI(u[1]) + AbsI(u[2]) + AbsI(u[3])
 \* slack of a comparison carried out on values divided by d (floor division loses up to one unit)
 Slack(t, d) == IF t = 0 THEN 0 ELSE (t \div d) + 2
 
+\* ---- flat storage -----------------------------------------------------------------------------------
+V3(flat, i) == <<flat[3 * i + 1], flat[3 * i + 2], flat[3 * i + 3]>>          \* i-th vector, 0-based
+CC(G, c) == V3(G.cc, c)
+FC(G, f) == V3(G.fc, f)
+PtsOf(flat, ptr, k) == {V3(flat, j) : j \in ptr[k]..(ptr[k + 1] - 1)}        \* k 1-based position
+\* position of face f among the selected faces of grid P (every coupled face is selected)
+Sel(P, f) == CHOOSE k \in 1..Len(P.fsel) : P.fsel[k] = f
+FaceArea(P, f) == P.sfa[Sel(P, f)]
+FaceNormal(P, f) == V3(P.sfn, Sel(P, f) - 1)
+NumCellsOf(P, f) == P.sncf[Sel(P, f)]
+OwnerCell(P, f) == P.scell[Sel(P, f)]        \* the cell of a face with exactly one cell
+OwnerSign(P, f) == P.ssign[Sel(P, f)]
+FacePts(P, f) == PtsOf(P.spts, P.sptr, Sel(P, f))
+CellPts(S, c) == IF S.dim = 0 THEN {CC(S, c)} ELSE PtsOf(S.cpts, S.cptr, c + 1)
+
 \* ---- reading the mortar maps ------------------------------------------------------------------------
 \* every mortar cell has exactly one primary face and one secondary cell, with weight 1
 MortarOneToOne(I) ==
-  /\ I.nm >= 1 /\ Len(I.pm) = I.nm /\ Len(I.sm) = I.nm /\ Len(I.mside) = I.nm /\ Len(I.mvol) = I.nm
-  /\ \A m \in 1..I.nm : /\ I.pm[m][1] = m - 1 /\ I.sm[m][1] = m - 1
-                         /\ I.pm[m][3] = FX /\ I.sm[m][3] = FX
-MF(I, m) == I.pm[m][2]          \* primary face of mortar cell m (m is 1-based, the face 0-based)
-MC(I, m) == I.sm[m][2]          \* secondary cell of mortar cell m
+  /\ I.nm >= 1 /\ Len(I.pmr) = I.nm /\ Len(I.pmf) = I.nm /\ Len(I.pmw) = I.nm
+  /\ Len(I.smr) = I.nm /\ Len(I.smc) = I.nm /\ Len(I.smw) = I.nm /\ Len(I.mside) = I.nm /\ Len(I.mvol) = I.nm
+  /\ \A m \in 1..I.nm : /\ I.pmr[m] = m - 1 /\ I.smr[m] = m - 1
+                         /\ I.pmw[m] = FX /\ I.smw[m] = FX
+MF(I, m) == I.pmf[m]            \* primary face of mortar cell m (m is 1-based, the face 0-based)
+MC(I, m) == I.smc[m]            \* secondary cell of mortar cell m
 IndicesOK(O) ==
   \A I \in Range(O.intfs) :
     /\ I.pri \in 0..(Len(O.sds) - 1) /\ I.sec \in 0..(Len(O.sds) - 1)
-    /\ \A m \in 1..I.nm : MF(I, m) \in 0..(SD(O, I.pri).nf - 1) /\ MC(I, m) \in 0..(SD(O, I.sec).nc - 1)
+    /\ \A m \in 1..I.nm : /\ MF(I, m) \in 0..(SD(O, I.pri).nf - 1) /\ MC(I, m) \in 0..(SD(O, I.sec).nc - 1)
+                           /\ MF(I, m) \in Range(SD(O, I.pri).fsel)
 \* the exported structure can be read at all: the meshing returned, the mortar maps are one-to-one
 Readable(O) == O.err = "" /\ (\A I \in Range(O.intfs) : MortarOneToOne(I)) /\ IndicesOK(O)
 
 MOf(I, c) == {m \in 1..I.nm : MC(I, m) = c}
 CoupledFaces(I) == {MF(I, m) : m \in 1..I.nm}
-OwnerCell(P, f) == P.cf[f + 1][1][1]        \* the cell of a face with exactly one cell
-OwnerSign(P, f) == P.cf[f + 1][1][2]
 
 \* ---- clause 1: each lower-dimensional cell is coupled to one split face of the host on each side,
 \*      on one side only where the host grid ends at the cell -------------------------------------------
@@ -163,11 +186,11 @@ CoupledInterface(O, I) ==
   /\ \A c \in 0..(S.nc - 1) :
        LET M == MOf(I, c)  F == {MF(I, m) : m \in M} IN
        /\ Cardinality(M) \in {1, 2}
-       /\ \A f \in F : Len(P.cf[f + 1]) = 1                 \* coupled faces are split (internal boundary) faces
+       /\ \A f \in F : NumCellsOf(P, f) = 1                 \* coupled faces are split (internal boundary) faces
        /\ Cardinality(M) = 2 => /\ Cardinality({I.mside[m] : m \in M}) = 2
                                 /\ Cardinality({OwnerCell(P, f) : f \in F}) = 2
 \* all faces of the grid P that coincide with cell c of the grid S
-FacesAt(P, S, c, t) == {f \in 0..(P.nf - 1) : Close3(P.fc[f + 1], S.cc[c + 1], t)}
+FacesAt(P, S, c, t) == LET x == CC(S, c) IN {f \in 0..(P.nf - 1) : Close3(FC(P, f), x, t)}
 CoupledTo(O, i, j, c) == UNION {{MF(I, m) : m \in MOf(I, c)} : I \in {I \in Range(O.intfs) : I.pri = i /\ I.sec = j}}
 \* completeness: the coupled faces of c are ALL faces of the higher-dimensional grid lying on c; so a cell
 \* with one coupled face sits where that grid really ends, and touching grids are coupled
@@ -179,11 +202,10 @@ CoupledBothSides(In, O, t) ==
   /\ Readable(O)
   /\ \A I \in Range(O.intfs) : CoupledInterface(O, I)
   /\ \A j \in 0..(Len(O.sds) - 1) : SD(O, j).dim < In.dim => \E I \in Range(O.intfs) : I.sec = j
-  /\ \A I, J \in Range(O.intfs) : (I.pri = J.pri /\ I.sec = J.sec) => I = J
+  /\ \A a, b \in 1..Len(O.intfs) : (O.intfs[a].pri = O.intfs[b].pri /\ O.intfs[a].sec = O.intfs[b].sec) => a = b
   /\ CoupledComplete(O, t)
 
 \* ---- clause 2: coupled faces coincide with the cell in centre and measure (and in their nodes) ----------
-NodePts(G, idx) == {G.nodes[n + 1] : n \in Range(idx)}
 SameNodes(A, B, t) == (\A a \in A : \E b \in B : Close3(a, b, t)) /\ (\A b \in B : \E a \in A : Close3(a, b, t))
 FacesCoincide(In, O, t) ==
   /\ Readable(O)
@@ -191,21 +213,20 @@ FacesCoincide(In, O, t) ==
        LET P == SD(O, I.pri)  S == SD(O, I.sec) IN
        \A m \in 1..I.nm :
          LET f == MF(I, m)  c == MC(I, m) IN
-         /\ Close3(P.fc[f + 1], S.cc[c + 1], t)
-         /\ Close(P.fa[f + 1], S.vol[c + 1], t)
-         /\ SameNodes(NodePts(P, P.fnod[f + 1]),
-                      IF S.dim = 0 THEN {S.cc[c + 1]} ELSE NodePts(S, S.cnod[c + 1]), t)
+         /\ Close3(FC(P, f), CC(S, c), t)
+         /\ Close(FaceArea(P, f), S.vol[c + 1], t)
+         /\ SameNodes(FacePts(P, f), CellPts(S, c), t)
 
 \* ---- clause 3: the two coupled faces have opposite outward normals ---------------------------------------
-OutNormal(P, f) == Scale3(OwnerSign(P, f), P.fnrm[f + 1])
+OutNormal(P, f) == Scale3(OwnerSign(P, f), FaceNormal(P, f))
 \* 'outward': away from the centre of the cell the face belongs to (factors coarsened to 2^-12 against overflow)
 PointsAway(P, f) ==
-  DotI(Div3(Sub3(P.fc[f + 1], P.cc[OwnerCell(P, f) + 1]), 16384), Div3(OutNormal(P, f), 16384)) > 0
+  DotI(Div3(Sub3(FC(P, f), CC(P, OwnerCell(P, f))), 16384), Div3(OutNormal(P, f), 16384)) > 0
 OppositeNormals(In, O, t) ==
   /\ Readable(O)
   /\ \A I \in Range(O.intfs) :
        LET P == SD(O, I.pri)  S == SD(O, I.sec) IN
-       /\ \A f \in CoupledFaces(I) : Len(P.cf[f + 1]) = 1 /\ PointsAway(P, f)
+       /\ \A f \in CoupledFaces(I) : NumCellsOf(P, f) = 1 /\ PointsAway(P, f)
        /\ \A c \in 0..(S.nc - 1) : \A m1, m2 \in MOf(I, c) :
             m1 < m2 => LET a == OutNormal(P, MF(I, m1))  b == OutNormal(P, MF(I, m2)) IN
                        Close3(a, Scale3(-1, b), t)
@@ -254,8 +275,7 @@ Measure2(In, k) == LET V == In.fracs[k] IN
 \* the cells of grid G lie on fracture k and tile it: centres and nodes on k, total measure = measure of k
 \* (compared squared, with the sum coarsened to 2^-11 against overflow: resolution 5e-4; exact for t = 0 on lattice networks)
 GridOnFrac(In, G, k, t) ==
-  /\ \A c \in 1..G.nc : OnFrac(In, k, G.cc[c], t)
-  /\ \A n \in 1..Len(G.nodes) : OnFrac(In, k, G.nodes[n], t)
+  /\ \A c \in 0..(G.nc - 1) : OnFrac(In, k, CC(G, c), t) /\ \A x \in CellPts(G, c) : OnFrac(In, k, x, t)
   /\ LET L == SumSeq(G.vol) \div 32768 IN
      AbsI(L * L - Measure2(In, k) * 4194304) <= (IF t = 0 THEN 0 ELSE 4 * L + 4)
 OnFractures(In, O, t) ==
@@ -268,7 +288,7 @@ OnFractures(In, O, t) ==
         \* cells of intersection grids lie on (at least) two fractures
         /\ \A i \in 0..(Len(O.sds) - 1) :
              SD(O, i).dim < In.dim - 1 =>
-               \A c \in 1..SD(O, i).nc : Cardinality({k \in K : OnFrac(In, k, SD(O, i).cc[c], t)}) >= 2
+               \A c \in 0..(SD(O, i).nc - 1) : Cardinality({k \in K : OnFrac(In, k, CC(SD(O, i), c), t)}) >= 2
 
 \* ---- clause 7: each mortar side matches the lower-dimensional cells in number and size --------------------
 MortarMatch(In, O, t) ==
@@ -284,12 +304,12 @@ MortarMatch(In, O, t) ==
 \* ---- lattice family: the real grid IS the expected one -----------------------------------------------------
 OnLattice(x) == x[1] % HALF = 0 /\ x[2] % HALF = 0 /\ x[3] % HALF = 0
 Loc(x) == <<x[1] \div HALF, x[2] \div HALF, x[3] \div HALF>>
-LocSet(G) == {Loc(G.cc[c]) : c \in 1..G.nc}
+LocSet(G) == {Loc(CC(G, c)) : c \in 0..(G.nc - 1)}
 GridsOfDim(O, d) == {i \in 0..(Len(O.sds) - 1) : SD(O, i).dim = d}
 SumNc(O, Is) == SumSeq([k \in 1..Len(O.sds) |-> IF (k - 1) \in Is THEN O.sds[k].nc ELSE 0])
 LatticeCells(N, O) ==
   /\ O.err = ""
-  /\ \A i \in 0..(Len(O.sds) - 1) : SD(O, i).dim \in 0..N.dim /\ \A c \in 1..SD(O, i).nc : OnLattice(SD(O, i).cc[c])
+  /\ \A i \in 0..(Len(O.sds) - 1) : SD(O, i).dim \in 0..N.dim /\ \A c \in 0..(SD(O, i).nc - 1) : OnLattice(CC(SD(O, i), c))
   \* one host grid: the unit cubes of the box
   /\ Cardinality(GridsOfDim(O, N.dim)) = 1
   /\ \A i \in GridsOfDim(O, N.dim) : LocSet(SD(O, i)) = Host(N) /\ SD(O, i).nc = Cardinality(Host(N))
@@ -303,11 +323,11 @@ LatticeCells(N, O) ==
        /\ SumNc(O, GridsOfDim(O, d)) = Cardinality(Level(N, d))
 RealPairs(O) ==
   UNION {LET P == SD(O, I.pri)  S == SD(O, I.sec) IN
-         {<<Loc(S.cc[MC(I, m) + 1]), Loc(P.cc[OwnerCell(P, MF(I, m)) + 1])>> : m \in 1..I.nm}
+         {<<Loc(CC(S, MC(I, m))), Loc(CC(P, OwnerCell(P, MF(I, m))))>> : m \in 1..I.nm}
          : I \in Range(O.intfs)}
 LatticePairs(N, O) ==
   /\ Readable(O)
-  /\ \A I \in Range(O.intfs) : \A f \in CoupledFaces(I) : Len(SD(O, I.pri).cf[f + 1]) >= 1
+  /\ \A I \in Range(O.intfs) : \A f \in CoupledFaces(I) : NumCellsOf(SD(O, I.pri), f) >= 1
   /\ RealPairs(O) = Pairs(N)
   /\ SumSeq([k \in 1..Len(O.intfs) |-> O.intfs[k].nm]) = Cardinality(Pairs(N))
 =============================================================================
